@@ -69,32 +69,40 @@ func (op *LogOp) ApplyTo(cstate consensus.State) (consensus.State, error) {
 			logger.Error(err)
 			goto ROLLBACK
 		}
-		// Async, we let the PinTracker take care of any problems
-		op.consensus.rpcClient.GoContext(
+		// The PinTracker takes care of any problems, but it must
+		// be told about operations in the order they are applied:
+		// a Track overtaken by the Untrack of the same Cid would
+		// leave it pinned forever. Tracking only queues the
+		// operation.
+		err = op.consensus.rpcClient.CallContext(
 			ctx,
 			"",
 			"PinTracker",
 			"Track",
 			pin,
 			&struct{}{},
-			nil,
 		)
+		if err != nil {
+			logger.Error(err)
+		}
 	case LogOpUnpin:
 		err = state.Rm(ctx, pin.Cid)
 		if err != nil {
 			logger.Error(err)
 			goto ROLLBACK
 		}
-		// Async, we let the PinTracker take care of any problems
-		op.consensus.rpcClient.GoContext(
+		// See above.
+		err = op.consensus.rpcClient.CallContext(
 			ctx,
 			"",
 			"PinTracker",
 			"Untrack",
 			pin,
 			&struct{}{},
-			nil,
 		)
+		if err != nil {
+			logger.Error(err)
+		}
 	default:
 		logger.Error("unknown LogOp type. Ignoring")
 	}
